@@ -145,7 +145,7 @@ func runC20(c *core.Ctx) core.Meta {
 						paired = true
 					}
 				}
-				idOK := core.ProvMatch(regexp.MustCompile(`^append\(recv\.` + l.free + `,\[recv\.\w+\[recv\.\w+\.PeekIncoming\(\)\.\w+ID\]\]\)$`), pv)
+				idOK := core.ProvMatch(regexp.MustCompile(`^append\(recv\.`+l.free+`,\[recv\.\w+\[recv\.\w+\.PeekIncoming\(\)\.\w+ID\]\]\)$`), pv)
 				st2.Ob(paired && idOK)
 				st2.Sample("%s: %s := %s (paired with %s--: %v)", core.FuncName(fn), l.free, pv, l.unfinished, paired)
 				if !paired {
